@@ -321,6 +321,18 @@ fn validate_nodata_response(
             );
         }
 
+        // A record from the parent side of a zone cut (NS without SOA) says nothing about
+        // types other than DS at its owner name, those belong to the child zone. RFC 6840 4.1.
+        if query_type != RecordType::DS
+            && query_record.nsec3_data.type_set().contains(RecordType::NS)
+            && !query_record.nsec3_data.type_set().contains(RecordType::SOA)
+        {
+            return cx.proof(
+                Proof::Bogus,
+                format_args!("ancestor delegation nsec3 used for {query_type}"),
+            );
+        }
+
         if query_record.nsec3_data.type_set().contains(query_type)
             || query_record
                 .nsec3_data
